@@ -89,7 +89,7 @@ theorem origin_is_rfc6811 (localAsn : Nat) (path : Option (List Seg))
     peer-learned one with the session's local AS: what `show` reports is the RFC 6811 state for
     `originRfc` of that AS. -/
 theorem origin_of_local_route (la ga : Nat) (t : Table) (hi : TableInv t) (loc : Bool) (st : VState)
-    (r : Net) (hr : NetWF r) (path : Option (List Seg))
+    (r : Net) (hr : NetWF r) (path : Option (List Seg)) (henc : PathEnc path)
     (hwf : ∀ segs, path = some segs → pathWF segs = true) :
     ∃ res : Validation, step la ga t (.display loc st r path)
         = .ok (t, some (.api (some (res.state, res.reason)) (decide (res.state = st)))) ∧
@@ -98,10 +98,21 @@ theorem origin_of_local_route (la ga : Nat) (t : Table) (hi : TableInv t) (loc :
   cases hv : t.validate (if loc then ga else la) r path with
   | none => simp [hv] at h
   | some res =>
-    refine ⟨res, by simp [step, hv], ?_⟩
+    refine ⟨res, by simp [step, validateB_eq _ _ _ _ henc, hv], ?_⟩
     rw [hv] at h
     simp only [Option.map_some, Option.some.injEq] at h
     rw [h, Rbgp.Rpki.origin_is_rfc6811 _ path hwf]
+
+/-- **The origin the code derives by walking the BYTES of the AS_PATH attribute
+    (`Attribute::as_path_origin`, `as_path_final_segment_type`) is, for the wire encoding of every
+    segment list (type and count fit an octet, AS numbers four), the segment-level `routeOrigin`
+    above; in particular neither walk panics.** -/
+theorem origin_bytes_eq_segments (localAsn : Nat) (path : Option (List Seg)) (h : PathEnc path) :
+    routeOriginBytes localAsn path = .ok (routeOrigin localAsn path) :=
+  routeOriginBytes_eq localAsn path h
+
+example : routeOriginBytes 65000 (some [(2, [7, 8]), (1, [9, 4200000000])]) = .ok none := by decide
+example : asPathOriginBytes [2, 2, 0, 0, 0, 7, 0, 0, 0] = .panic := by decide     -- a truncated attribute
 
 example : routeOrigin 65000 (some [(2, [7, 8]), (1, [9, 10])]) = none := by decide
 example : routeOrigin 65000 (some [(2, [7, 8]), (3, [9])]) = some 65000 := by decide
